@@ -29,7 +29,7 @@ RULE = ("config: random histories (set / reset of the global step interleaved wi
         "PreferredUnits.set, basicConfig(preferred_units), TOML file, TOML calculator step units, _parse_value with numeric "
         "prefixes} (exhaustive), plus unknown names; non-trivial: every history with >= 1 override and every name variant "
         "that is not the canonical spelling")
-MUST_OBSERVE = ["histories", "calculators_observed", "steps_traced", "override_step_seen", "global_step_seen",
+MUST_OBSERVE = ["calculators_from_one_shared_settings_dict", "histories", "calculators_observed", "steps_traced", "override_step_seen", "global_step_seen",
                 "limits_compared", "limits_compared_on_inclined_sight_line", "gravity_checked", "accuracy_checked", "iteration_cap_checked", "defaults_fresh_interpreter",
                 "nonpositive_rejected", "dict_mutation_checked", "names_parsed", "aliases_parsed", "channel__parse_unit",
                 "channel_set", "channel_basicConfig", "channel_toml_units", "channel_toml_step", "channel__parse_value",
@@ -119,6 +119,7 @@ def check_history(ctx, case):
     model_global = 0.5
     live = []          # (calculator, expected step, description)
     overrides = 0
+    shared = {}
     for op in case["ops"]:
         kind = op[0]
         if kind == "set":
@@ -160,7 +161,17 @@ def check_history(ctx, case):
                 ctx.violation("global-setter.value", f"global maximum step is {got!r} ft, expected {model_global!r} ft after {op}", case)
         elif kind == "new":
             cfg = op[1]
-            c = Calculator(_config=dict(cfg)) if cfg is not None else Calculator()
+            if cfg is not None and len(op) > 2 and op[2] is not None:
+                # the application keeps one settings dict and hands the very same object to every calculator it creates
+                handed = shared.setdefault(op[2], dict(cfg))
+                ctx.count("calculators_from_one_shared_settings_dict")
+            else:
+                handed = dict(cfg) if cfg is not None else None
+            c = Calculator(_config=handed) if cfg is not None else Calculator()
+            if cfg is not None and handed != cfg:
+                # not judged by itself (the statement does not speak about the dict): what counts is that the next calculator made
+                # from this object still follows the settings its owner wrote into it and nothing else - the step oracle decides
+                ctx.count("settings_dict_changed_by_the_library")
             exp = cfg["max_calc_step_size_feet"] if cfg and "max_calc_step_size_feet" in cfg else model_global
             if cfg and "max_calc_step_size_feet" in cfg:
                 overrides += 1
@@ -567,14 +578,22 @@ def gen_history(rng):
             ops.append(["new", cfg])
         else:
             ops.append(["observe", rng.randint(0, 9)])
+    # the same settings (one dict object) serve several calculators created at different moments of the history
+    news = [o for o in ops if o[0] == "new" and o[1] is not None]
+    if news and rng.random() < 0.6:
+        proto = rng.choice(news)[1]
+        for o in news:
+            if rng.random() < 0.7:
+                o[1] = dict(proto)
+                o.append("S")
     return {"kind": "history", "ops": ops}
 
 
 def gen_settings(rng):
     cfg = {}
     pool = {"max_calc_step_size_feet": [0.25, 1.0, 2.0], "cZeroFindingAccuracy": [0.5, 1.0, 1e-4], "cMinimumVelocity": [0.0, 400.0, 1200.0, -100.0],
-            "cMaximumDrop": [-5.0, -200.0, -30000.0], "cMaxIterations": [1, 2, 60], "cGravityConstant": [-9.0, -32.17405, -50.0, -16.0],
-            "cMinimumAltitude": [-100.0, -10.0, -3000.0], "chart_resolution": [0.2, 1.0]}
+            "cMaximumDrop": [-5.0, -200.0, -30000.0, 0.0, 0], "cMaxIterations": [1, 2, 60], "cGravityConstant": [-9.0, -32.17405, -50.0, -16.0],
+            "cMinimumAltitude": [-100.0, -10.0, -3000.0, 0.0, 0, -0.0], "chart_resolution": [0.2, 1.0]}
     for k, vals in pool.items():
         if rng.random() < 0.45:
             cfg[k] = rng.choice(vals)
